@@ -11,7 +11,7 @@ from facts import (walk, walk_with_parents, children, peel, src, loc, callee_is,
 
 
 def check(run):
-    add_rules(run, ['ACC.pair', 'ACC.guard', 'ACC.order', 'GATE.form', 'GATE.dom'])
+    add_rules(run, ['ACC.pair', 'ACC.guard', 'ACC.order', 'ACC.exit', 'GATE.form', 'GATE.dom'])
     for r, t in idxkernel.RULES.items():
         run.rule(r, t)
     run.rule('EXT.expiry', 'the cached extreme is re-established by a full rescan of '
